@@ -28,6 +28,9 @@ structure Params where
   hb : Prop
   /-- there is a special block at all -/
   sp : Bool
+  /-- the test tables of both runs -/
+  na : List Str
+  nt : List Str
 
 structure Params.Ok (P : Params) : Prop where
   hρ : Injective P.ρ
@@ -90,8 +93,13 @@ theorem getElem?_push_lt' {α : Type} {a : Array α} {i : Nat} {x y : α} (h : a
 
 /-- arena part of the simulation -/
 structure ASim (s₁ s₂ : St) : Prop where
-  noArgs : s₂.noArgs = s₁.noArgs
-  testTypes : s₂.testTypes = s₁.testTypes
+  na₁ : s₁.noArgs = P.na
+  na₂ : s₂.noArgs = P.na
+  nt₁ : s₁.testTypes = P.nt
+  nt₂ : s₂.testTypes = P.nt
+  /-- nothing shrinks w.r.t. the base states -/
+  mono₁ : P.base₁.next ≤ s₁.next ∧ P.base₁.nodes.size ≤ s₁.nodes.size ∧ P.base₁.groups.size ≤ s₁.groups.size
+  mono₂ : P.base₂.next ≤ s₂.next ∧ P.base₂.nodes.size ≤ s₂.nodes.size ∧ P.base₂.groups.size ≤ s₂.groups.size
   idsync : ∀ k, P.ρ (tid (s₁.next + k)) = tid (s₂.next + k)
   nsync : ∀ k, P.ν (s₁.nodes.size + k) = s₂.nodes.size + k
   gsync : ∀ k, P.γ (s₁.groups.size + k) = s₂.groups.size + k
@@ -115,11 +123,13 @@ structure ASim (s₁ s₂ : St) : Prop where
 variable {P}
 
 theorem ASim.idSync {s₁ s₂ : St} (h : ASim P s₁ s₂) : IdSync P.ρ s₁ s₂ :=
-  ⟨h.noArgs, h.testTypes, h.idsync⟩
+  ⟨by rw [h.na₂, h.na₁], by rw [h.nt₂, h.nt₁], h.idsync⟩
 
 theorem ASim.bumps {s₁ s₂ t₁ t₂ : St} (h : ASim P s₁ s₂) (hb : Bumps s₁ t₁ s₂ t₂) : ASim P t₁ t₂ := by
   obtain ⟨k, rfl, rfl⟩ := hb
-  refine { h with idsync := ?_, dex := ?_ }
+  refine { h with idsync := ?_, dex := ?_, mono₁ := ?_, mono₂ := ?_ }
+  · exact ⟨Nat.le_trans h.mono₁.1 (Nat.le_add_right _ _), h.mono₁.2⟩
+  · exact ⟨Nat.le_trans h.mono₂.1 (Nat.le_add_right _ _), h.mono₂.2⟩
   · intro j
     have := h.idsync (k + j)
     simpa [Nat.add_assoc] using this
@@ -144,7 +154,9 @@ theorem ASim.setNode (ok : P.Ok) {s₁ s₂ : St} (h : ASim P s₁ s₂) {i : Na
       { s₂ with nodes := s₂.nodes.setIfInBounds (P.ν i) (rnNode P.ρ n') } := by
   have hlt : i < s₁.nodes.size := (Array.getElem?_eq_some_iff.mp ho).1
   have hlt2 := h.node_lt hd ho
-  refine { h with nsync := ?_, ndom := ?_, wf := ?_, dex := ?_, nodes := ?_, fr1n := ?_, fr2n := ?_ }
+  refine { h with nsync := ?_, ndom := ?_, wf := ?_, dex := ?_, nodes := ?_, fr1n := ?_, fr2n := ?_, mono₁ := ?_, mono₂ := ?_ }
+  · exact ⟨h.mono₁.1, by simpa using h.mono₁.2.1, h.mono₁.2.2⟩
+  · exact ⟨h.mono₂.1, by simpa using h.mono₂.2.1, h.mono₂.2.2⟩
   · intro k; simpa using h.nsync k
   · intro j hj; exact h.ndom j (by simpa using hj)
   · intro j g hg
@@ -186,7 +198,9 @@ theorem ASim.addNode {s₁ s₂ : St} (h : ASim P s₁ s₂) (n : NodeM)
     (hdx : Below s₁.next n.dexitUid ∨ ¬ Invented n.dexitUid) :
     ASim P { s₁ with nodes := s₁.nodes.push n } { s₂ with nodes := s₂.nodes.push (rnNode P.ρ n) } := by
   have h0 : P.ν s₁.nodes.size = s₂.nodes.size := by simpa using h.nsync 0
-  refine { h with nsync := ?_, ndom := ?_, wf := ?_, dex := ?_, nodes := ?_, fr1n := ?_, fr2n := ?_ }
+  refine { h with nsync := ?_, ndom := ?_, wf := ?_, dex := ?_, nodes := ?_, fr1n := ?_, fr2n := ?_, mono₁ := ?_, mono₂ := ?_ }
+  · exact ⟨h.mono₁.1, by have := h.mono₁.2.1; simp; omega, h.mono₁.2.2⟩
+  · exact ⟨h.mono₂.1, by have := h.mono₂.2.1; simp; omega, h.mono₂.2.2⟩
   · intro k
     have := h.nsync (1 + k)
     simpa [Nat.add_assoc] using this
@@ -240,7 +254,9 @@ theorem ASim.setGrp (ok : P.Ok) {s₁ s₂ : St} (h : ASim P s₁ s₂) {j : Nat
     by_cases hjx : j = x
     · subst hjx; simp only [hlt, if_true, Option.some.injEq] at hx; exact .inl ⟨rfl, hx.symm⟩
     · simp only [hjx, if_false] at hx; exact .inr ⟨fun e => hjx e.symm, hx⟩
-  refine { h with gsync := ?_, gdom := ?_, bxlt := ?_, bne := ?_, wf := ?_, groups := ?_, closed := ?_, ra := ?_, fr1g := ?_, fr2g := ?_ }
+  refine { h with gsync := ?_, gdom := ?_, bxlt := ?_, bne := ?_, wf := ?_, groups := ?_, closed := ?_, ra := ?_, fr1g := ?_, fr2g := ?_, mono₁ := ?_, mono₂ := ?_ }
+  · exact ⟨h.mono₁.1, h.mono₁.2.1, by simpa using h.mono₁.2.2⟩
+  · exact ⟨h.mono₂.1, h.mono₂.2.1, by simpa using h.mono₂.2.2⟩
   · intro k; simpa using h.gsync k
   · intro x hx; exact h.gdom x (by simpa using hx)
   · simpa using h.bxlt
@@ -298,7 +314,9 @@ theorem ASim.addGrp {s₁ s₂ : St} (h : ASim P s₁ s₂) (g : Grp)
     by_cases hxs : x = s₁.groups.size
     · simp only [hxs, if_true, Option.some.injEq] at hx; exact .inl ⟨hxs, hx.symm⟩
     · simp only [hxs, if_false] at hx; exact .inr ⟨hxs, hx⟩
-  refine { h with gsync := ?_, gdom := ?_, bxlt := ?_, bne := ?_, wf := ?_, groups := ?_, closed := ?_, ra := ?_, fr1g := ?_, fr2g := ?_ }
+  refine { h with gsync := ?_, gdom := ?_, bxlt := ?_, bne := ?_, wf := ?_, groups := ?_, closed := ?_, ra := ?_, fr1g := ?_, fr2g := ?_, mono₁ := ?_, mono₂ := ?_ }
+  · exact ⟨h.mono₁.1, h.mono₁.2.1, by have := h.mono₁.2.2; simp; omega⟩
+  · exact ⟨h.mono₂.1, h.mono₂.2.1, by have := h.mono₂.2.2; simp; omega⟩
   · intro k
     have := h.gsync (1 + k)
     simpa [Nat.add_assoc] using this
@@ -343,8 +361,12 @@ theorem ASim.congr {s₁ s₂ t₁ t₂ : St} (h : ASim P s₁ s₂)
     (f1 : t₂.nodes = s₂.nodes) (f2 : t₂.groups = s₂.groups) (f3 : t₂.next = s₂.next)
     (f4 : t₂.noArgs = s₂.noArgs) (f5 : t₂.testTypes = s₂.testTypes) : ASim P t₁ t₂ := by
   constructor
-  · rw [f4, e4]; exact h.noArgs
-  · rw [f5, e5]; exact h.testTypes
+  · rw [e4]; exact h.na₁
+  · rw [f4]; exact h.na₂
+  · rw [e5]; exact h.nt₁
+  · rw [f5]; exact h.nt₂
+  · rw [e3, e1, e2]; exact h.mono₁
+  · rw [f3, f1, f2]; exact h.mono₂
   · rw [e3, f3]; exact h.idsync
   · rw [e1, f1]; exact h.nsync
   · rw [e2, f2]; exact h.gsync
